@@ -591,20 +591,52 @@ func dropNilGuards(t *Term) *Term {
 	if t == nil {
 		return nil
 	}
+	emptyOf := func(d string) (string, bool) {
+		switch {
+		case strings.HasSuffix(d, "==nil"):
+			return strings.TrimSuffix(d, "==nil"), true
+		case strings.HasPrefix(d, "!(0<len(") && strings.HasSuffix(d, "))"):
+			return d[len("!(0<len(") : len(d)-2], true
+		case strings.HasPrefix(d, "len(") && strings.HasSuffix(d, ")==0"):
+			return d[len("len(") : len(d)-len(")==0")], true
+		}
+		return "", false
+	}
 	return t.Map(func(a *Atom) *Term {
-		if a.Kind != "ite" || len(a.Sub) != 2 || !strings.HasSuffix(a.Cond, "==nil") {
+		if a.Kind != "ite" || len(a.Sub) != 2 {
 			return nil
 		}
-		p := strings.TrimSuffix(a.Cond, "==nil")
-		zeroed := a.Sub[1].Map(func(b *Atom) *Term {
-			if (b.Kind == "sum" || b.Kind == "len") && b.Path == p {
-				return Const(0)
+		// the condition is a disjunction; a disjunct "L is empty" can go when the else-arm, with every
+		// sum over L and len(L) taken as 0, equals the then-arm: both arms then agree whenever it holds
+		parts := splitOr(a.Cond)
+		var rest []string
+		dropped := false
+		for _, d := range parts {
+			p, isEmpty := emptyOf(d)
+			if isEmpty {
+				zeroed := a.Sub[1].Map(func(b *Atom) *Term {
+					if (b.Kind == "sum" || b.Kind == "len") && b.Path == p {
+						return Const(0)
+					}
+					return nil
+				})
+				if zeroed.Equal(a.Sub[0]) {
+					dropped = true
+					continue
+				}
 			}
+			rest = append(rest, d)
+		}
+		if !dropped {
 			return nil
-		})
-		if zeroed.Equal(a.Sub[0]) {
+		}
+		if len(rest) == 0 {
 			return a.Sub[1]
 		}
-		return nil
+		c := rest[0]
+		for _, d := range rest[1:] {
+			c = orCond(c, d)
+		}
+		return Ite(c, a.Sub[0], a.Sub[1])
 	})
 }
